@@ -421,6 +421,125 @@ fn future_sync_panics() {
     let _ = gone;
 }
 
+/// No pool thread: callers carry all the work, and a caller waiting inside `sync` takes the queue over and runs jobs that
+/// borrow ANOTHER caller's stack frame.  Such a job must be finished (or never started) by the time its owner's `sync` returns.
+fn sync_steal_pool0() {
+    scheduler().set_max_threads(0);
+    scheduler().despawn_threads_if_overloaded();
+    let d = Arc::new(Desync::new(Payload::new()));
+    let mut hs = vec![];
+    for t in 0..3u64 {
+        let d = d.clone();
+        hs.push(thread::spawn(move || {
+            let mut local = vec![Box::new(t)];
+            for i in 0..1u64 {
+                d.desync(move |p| p.touch(i));
+                let n = d.sync(|p| {
+                    p.touch(10 * t + i);
+                    local.push(Box::new(i));
+                    local.len()
+                });
+                assert!(n >= 2);
+                match d.try_sync(|p| {
+                    local.push(Box::new(7));
+                    p.items.len()
+                }) {
+                    Ok(n) => assert!(n > 0),
+                    Err(TrySyncError::Busy) => {}
+                }
+            }
+            drop(local);
+        }));
+    }
+    for h in hs {
+        h.join().unwrap();
+    }
+    assert!(d.sync(|p| p.items.len()) > 0);
+}
+
+/// No pool thread: a `sync` closure panics, possibly while it is being run by ANOTHER caller that took the queue over from
+/// inside its own `sync`.  Frames unwind while jobs that borrow them may still sit in the dead queue: nothing borrowed from
+/// any of them may be touched afterwards, and owners going away afterwards must neither run the dead queue nor free the
+/// value twice.  (A caller that was already waiting when the queue died is not owed a return by any property: the main
+/// thread therefore does not join, it waits a bounded number of yields.)
+fn sync_panics_pool0() {
+    use std::panic::{catch_unwind, AssertUnwindSafe};
+    use std::sync::atomic::{AtomicUsize, Ordering};
+    scheduler().set_max_threads(0);
+    scheduler().despawn_threads_if_overloaded();
+    let d = Arc::new(Desync::new(Payload::new()));
+    let done = Arc::new(AtomicUsize::new(0));
+    d.desync(|p| p.touch(1));
+    for t in 0..3u64 {
+        let d = d.clone();
+        let done = done.clone();
+        thread::spawn(move || {
+            let mut local = vec![Box::new(t)];
+            let r = catch_unwind(AssertUnwindSafe(|| {
+                d.sync(|p| {
+                    p.touch(t);
+                    local.push(Box::new(1));
+                    if t == 1 {
+                        panic!("deliberate panic inside a sync closure");
+                    }
+                    local.len()
+                })
+            }));
+            let _ = r;
+            drop(local);
+            let later = catch_unwind(AssertUnwindSafe(|| d.desync(|p| p.touch(9))));
+            let _ = later;
+            let gone = catch_unwind(AssertUnwindSafe(move || drop(d)));
+            let _ = gone;
+            done.fetch_add(1, Ordering::SeqCst);
+        });
+    }
+    for _ in 0..400 {
+        if done.load(Ordering::SeqCst) == 3 {
+            break;
+        }
+        thread::yield_now();
+    }
+    let gone = catch_unwind(AssertUnwindSafe(move || drop(d)));
+    let _ = gone;
+}
+
+/// `pipe`: the output stream (which carries the pipe's strong reference) is dropped while items are being processed, the
+/// caller's own owner goes at about the same time: the value is freed by whoever turns out to be last (possibly the
+/// library's own reference chute), exactly once, and never under the feet of an item's processing future.
+fn pipe_out_drop_mid() {
+    use futures::StreamExt;
+    let d = Arc::new(Desync::new(Payload::new()));
+    let (mut tx, rx) = mpsc::channel::<u64>(4);
+    let mut out = desync::pipe(d.clone(), rx, |p, item: u64| {
+        async move {
+            p.touch(item);
+            YieldNow(1).await;
+            p.touch(item + 1);
+            Box::new(item)
+        }
+        .boxed()
+    });
+    out.set_backpressure_depth(2);
+    let h = thread::spawn(move || {
+        executor::block_on(async {
+            for i in 0..5u64 {
+                if tx.send(i).await.is_err() {
+                    break;
+                }
+            }
+        });
+    });
+    let first = executor::block_on(out.next());
+    assert!(first.map(|b| *b) == Some(0));
+    let d2 = d.clone();
+    let dropper = thread::spawn(move || drop(d2));
+    drop(d);
+    drop(out);
+    dropper.join().unwrap();
+    h.join().unwrap();
+}
+
 fn main() {
     let prog = std::env::args().nth(1).unwrap_or_default();
     // a small pool keeps the thread count (and Miri's run time) down without changing the code paths
@@ -439,6 +558,9 @@ fn main() {
         "drop_self_waking" => drop_self_waking(),
         "late_waker_after_drop" => late_waker_after_drop(),
         "future_sync_panics" => future_sync_panics(),
+        "sync_steal_pool0" => sync_steal_pool0(),
+        "sync_panics_pool0" => sync_panics_pool0(),
+        "pipe_out_drop_mid" => pipe_out_drop_mid(),
         other => {
             eprintln!("unknown program {:?}", other);
             std::process::exit(3);
